@@ -117,3 +117,29 @@ Example C08_never_rooted_nonvacuous :
   exists sp ts r post e', build e = BuildOk (TCat sp ts) r /\ rep_free (TCat sp ts) = true /\
      partition (fun _ => false) e (TCat sp ts) = Ok (PartSome [] post e') /\ has_root post = Never.
 Proof. cbv zeta. do 5 eexists. repeat split; vm_compute; reflexivity. Qed.
+
+From WaxProofs Require Import RuleAdjRep RuleZomRep RootRep PartitionRootRep.
+
+(* with repetitions: the postfix is never rooted, hence partition is idempotent, for every glob that builds, whose repetitions are
+   written out at least once with bodies that begin and end with a leaf (the class of C06 over expansions with repetitions) and whose
+   starting chain holds no repetition - a glob rooted through a repetition at its very beginning keeps its root (known class
+   rooted_repetition).  A repetition that reports a root has an expansion that begins with a boundary (any tree with ordered bounds
+   and non-empty branches has expansions: copies of one), and right after a boundary that contradicts C06 *)
+Theorem C08_postfix_is_never_rooted_with_required_repetitions : forall hc e sp ts r text post e',
+  build e = BuildOk (TCat sp ts) r -> rep_class (TCat sp ts) = true -> chain_rep_free (TCat sp ts) = true ->
+  partition hc e (TCat sp ts) = Ok (PartSome text post e') -> has_root post = Never.
+Proof. exact built_postfix_never_rooted_r. Qed.
+Print Assumptions C08_postfix_is_never_rooted_with_required_repetitions.
+
+Theorem C08_partition_is_idempotent_with_required_repetitions : forall hc e sp ts r text post e',
+  build e = BuildOk (TCat sp ts) r -> rep_class (TCat sp ts) = true -> chain_rep_free (TCat sp ts) = true ->
+  partition hc e (TCat sp ts) = Ok (PartSome text post e') -> partition hc e' post = Ok (PartSome [] post e').
+Proof. exact built_partition_idempotent_r. Qed.
+Print Assumptions C08_partition_is_idempotent_with_required_repetitions.
+
+(* the premises are satisfiable: a/<b/:1,>*.c pops `a` and leaves a postfix that begins with the repetition *)
+Example C08_repetition_nonvacuous :
+  let e := [97;47;60;98;47;58;49;44;62;42;46;99]%N in
+  exists sp ts r text post e', build e = BuildOk (TCat sp ts) r /\ rep_class (TCat sp ts) = true /\ chain_rep_free (TCat sp ts) = true /\
+     rep_free (TCat sp ts) = false /\ partition (fun _ => false) e (TCat sp ts) = Ok (PartSome text post e') /\ text = [97%N; 47%N] /\ has_root post = Never.
+Proof. cbv zeta. do 6 eexists. repeat split; vm_compute; reflexivity. Qed.
